@@ -8,8 +8,8 @@ function of the configuration only: static chunks come from the C17 mapper; dyna
 `start + k * chunkSize`; stripe chunks are cut from each stripe at multiples of the chunk size
 whoever claims them (the atomic cursors only decide *who* runs a chunk).
 Index values are unbounded `Int`; `size_type` arithmetic is assumed not to overflow
-(`end - start < 2^63`, the documented limit); the one narrowing cast that matters
-(`static_cast<IntegerT>(adaptiveChunkSize)` handed to the stripes) is modelled with `Ty.wrap`.
+(`end - start < 2^63`, the documented limit). The original code narrowed the adaptive chunk size
+to `IntegerT` (`Ty.wrap`) before handing it to the stripes; the repaired code keeps it wide.
 `stripeBounds` follows the repaired code (stripe ends aligned to the granularity relative to
 `start`); `stripeBoundsOld` keeps the original absolute alignment.
 Core Lean only.
@@ -181,7 +181,8 @@ def plan (c : Cfg) : Plan :=
     if isAuto ∧ c.wait then
       let workers := numToLaunch + 1
       let acs := (calcChunkSize size c.chunk numToLaunch true minItems g 64).1
-      let cs := c.ty.wrap acs
+      -- repaired code: the chunk size stays in the 64-bit wide type (it used to be narrowed to IntegerT)
+      let cs := acs
       { mode := .stripes, chunks := stripesFrom c.start trimmedEnd cs (stripeBounds c.start trimmedEnd workers g) ++ tail,
         tasks := workers, tailConcurrent := false }
     else
